@@ -63,9 +63,10 @@ structure Step (u : Nat) (s s' : AggState) : Prop where
   imap : s'.agg.interfaces = s.agg.interfaces
   redirects : s'.agg.redirects = s.agg.redirects
   keys : ∀ g, (alGet s'.agg.remapped g).isSome = true → (alGet s.agg.remapped g).isSome = true ∨ g.uid = u
+  ikeys : ∀ uid i, alGet s'.agg.remapped ⟨uid, .interface i⟩ = alGet s.agg.remapped ⟨uid, .interface i⟩
 
 theorem Step.refl (u : Nat) (s : AggState) : Step u s s :=
-  ⟨Ext.refl _, rfl, rfl, rfl, rfl, rfl, rfl, rfl, rfl, fun _ h => .inl h⟩
+  ⟨Ext.refl _, rfl, rfl, rfl, rfl, rfl, rfl, rfl, rfl, fun _ h => .inl h, fun _ _ => rfl⟩
 
 theorem Step.trans {u : Nat} {s s' s'' : AggState} (h1 : Step u s s') (h2 : Step u s' s'') : Step u s s'' :=
   ⟨h1.ext.trans h2.ext, h2.ifaces.trans h1.ifaces, h2.worlds.trans h1.worlds, h2.modules.trans h1.modules,
@@ -73,7 +74,7 @@ theorem Step.trans {u : Nat} {s s' s'' : AggState} (h1 : Step u s s') (h2 : Step
     h2.redirects.trans h1.redirects, fun g h => by
       rcases h2.keys g h with h | h
       · exact h1.keys g h
-      · exact .inr h⟩
+      · exact .inr h, fun uid i => (h2.ikeys uid i).trans (h1.ikeys uid i)⟩
 
 /-- the copy `v'` (in the aggregator's collection after the step) unfolds to whatever `v` unfolds to -/
 def PostVT (types : Types) (s' : AggState) (v v' : ValueType) : Prop :=
@@ -171,15 +172,22 @@ theorem push_defined_spec (s : AggState) (hI : RInv W s) (id : Nat) (dt dt' : De
       intro v v' t0 hq hv
       exact hext.unfoldVT _ _ _ (hq t0 ⟨m, hv⟩)
   have hstep : Step types.uid s s' := by
-    refine ⟨hext, rfl, rfl, rfl, rfl, rfl, rfl, rfl, rfl, ?_⟩
-    intro g hg
-    simp only [s', setRemapped, pushDefined, alGet_alInsert] at hg
-    split at hg
-    · rename_i he
-      right
-      rw [eq_of_beq he |>.symm]
-      exact gty_uid_of_hasId _ _ rfl
-    · exact .inl hg
+    refine ⟨hext, rfl, rfl, rfl, rfl, rfl, rfl, rfl, rfl, ?_, ?_⟩
+    · intro g hg
+      simp only [s', setRemapped, pushDefined, alGet_alInsert] at hg
+      split at hg
+      · rename_i he
+        right
+        rw [eq_of_beq he |>.symm]
+        exact gty_uid_of_hasId _ _ rfl
+      · exact .inl hg
+    · intro uid i
+      simp only [s', setRemapped, pushDefined, alGet_alInsert]
+      split
+      · rename_i he
+        have := eq_of_beq he
+        simp [GTy.mk'] at this
+      · rfl
   have hshape : TableShape s'.agg.remapped :=
     hI.shape.insert _ _ (fun _ _ => ⟨_, rfl⟩) (fun f hf => by simp [GTy.mk'] at hf)
   refine ⟨⟨?_, ?_, hshape⟩, hstep, ?_⟩
@@ -564,15 +572,22 @@ theorem remapFunc_spec (n : Nat) (f : Nat) (s : AggState) (f' : Nat) (s' : AggSt
           ext_pushFunc _ _
         have hstep3 : Step types.uid s2 (setRemapped (pushFunc s2 { params := ps', result := r', isAsync := ft.isAsync })
             (GTy.mk' types (.func f)) (.func s2.agg.types.funcs.length)) := by
-          refine ⟨hext, rfl, rfl, rfl, rfl, rfl, rfl, rfl, rfl, ?_⟩
-          intro g hg'
-          simp only [setRemapped, pushFunc, alGet_alInsert] at hg'
-          split at hg'
-          · rename_i he
-            right
-            rw [eq_of_beq he |>.symm]
-            exact gty_uid_of_hasId _ _ rfl
-          · exact .inl hg'
+          refine ⟨hext, rfl, rfl, rfl, rfl, rfl, rfl, rfl, rfl, ?_, ?_⟩
+          · intro g hg'
+            simp only [setRemapped, pushFunc, alGet_alInsert] at hg'
+            split at hg'
+            · rename_i he
+              right
+              rw [eq_of_beq he |>.symm]
+              exact gty_uid_of_hasId _ _ rfl
+            · exact .inl hg'
+          · intro uid i
+            simp only [setRemapped, pushFunc, alGet_alInsert]
+            split
+            · rename_i he
+              have := eq_of_beq he
+              simp [GTy.mk'] at this
+            · rfl
         have hpost : ∀ t, HasFn types f t →
             (pushFunc s2 { params := ps', result := r', isAsync := ft.isAsync }).agg.types.unfoldFunc
               (s2.agg.types.defined.length + 1) s2.agg.types.funcs.length = some t := by
